@@ -439,9 +439,59 @@ func (x *Ctx) hintsCapacityOnly(r *core.Result, rs *core.RuleStat, st *types.Str
 			}
 		}
 	}
+	// a comparison on a hint may only choose between hint values: the part of the function that runs only because the
+	// comparison came out one way (the blocks dominated by a single-predecessor successor of the branch) must not
+	// return, call, or write anything but hint fields and locals
+	for _, fn := range funcs {
+		for _, b := range fn.Blocks {
+			iff, ok := b.Instrs[len(b.Instrs)-1].(*ssa.If)
+			if !ok {
+				continue
+			}
+			be, ok := iff.Cond.(*ssa.BinOp)
+			if !ok || !(t.Tainted[be.X] || t.Tainted[be.Y]) {
+				continue
+			}
+			for _, sc := range b.Succs {
+				if len(sc.Preds) != 1 {
+					continue // the join: reached either way
+				}
+				for _, rb := range fn.Blocks {
+					if !(rb == sc || sc.Dominates(rb)) {
+						continue
+					}
+					for _, ins := range rb.Instrs {
+						what := ""
+						switch v := ins.(type) {
+						case *ssa.Return:
+							what = "a return"
+						case *ssa.Panic:
+							what = "a panic"
+						case *ssa.MapUpdate, *ssa.Send, *ssa.Go, *ssa.Defer:
+							what = "an effect"
+						case *ssa.Call:
+							if bi, isB := v.Call.Value.(*ssa.Builtin); !isB || (bi.Name() != "len" && bi.Name() != "cap") {
+								what = "a call"
+							}
+						case *ssa.Store:
+							fa, isFa := v.Addr.(*ssa.FieldAddr)
+							_, isAlloc := v.Addr.(*ssa.Alloc)
+							if !(isAlloc || (isFa && structOfType(fa.X.Type()) == st && hints[fa.Field])) {
+								what = "a store"
+							}
+						}
+						if what != "" {
+							bad++
+							r.Fail(rs, fnKey(fn)+":hint-control", w.Pos(ins.Pos()), "a comparison on a size hint (at "+w.Pos(iff.Cond.Pos())+") decides whether "+what+" happens: state kept across calls would influence a result, not just a capacity")
+						}
+					}
+				}
+			}
+		}
+	}
 	if bad == 0 {
 		rs.OK(len(names))
-		rs.Sample("hint fields " + strings.Join(names, ", ") + ": values reach only make capacities, other hint fields and comparisons")
+		rs.Sample("hint fields " + strings.Join(names, ", ") + ": values reach only make capacities, other hint fields and comparisons that choose between hint values")
 	}
 }
 
